@@ -264,6 +264,11 @@ pub fn run_pipeline(
         // above.
         if !capture {
             cmd_result = _cr;
+        } else {
+            // the captured text is already in cmd_result; the exit status is
+            // only known now (it was left at 0, so `if` / `while` tests in a
+            // function called inside $(...) always passed)
+            cmd_result.status = _cr.status;
         }
     }
     if last_stage_failed {
